@@ -40,6 +40,10 @@ REPS = {
     "plain.cs": b"class A { int  f( ){ return 1 ; } }\n",
     "plain.d": b"int  f( ){ return 1 ; }\n",
     "plain.m": b"@interface A : NSObject\n- (void) f;\n@end\n",
+    # a C++ file that fires the C -> Objective-C probe (a bare '@' punctuator), and an Objective-C++ file whose keywords exist in the
+    # Objective-C table only: the language of the second file equals the flags the first one left behind
+    "objc_probe.cpp": b"#define BOXED(v) @(v)\nint boxed(int a) { return a; }\n",
+    "uses_oc.mm": b"@interface Widget: NSObject\n- (void) run;\n@end\n@implementation Widget\n- (void) run { @try { [self go]; } @catch (id e) { self = nil; } @finally { } }\n@end\n",
     "plain.cpp": b"template<class T> struct S { T  t ; };\nint g(){ S<S<int>> s; return 0;}\n",
 }
 FIELDS = {"lang": ["lang"], "unc_off": ["unc_off"], "unc_off_used": ["unc_off_used"], "pp_level": ["pp_level"],
